@@ -109,7 +109,7 @@ Section Fluent.
 
   Definition state := list iter.
 
-  Definition step (st : state) (o : op) : state * list event :=
+  Definition fstep (st : state) (o : op) : state * list event :=
     let on (q : nat) (f : iter -> state * list event) :=
       match nth_opt st q with Some it => f it | None => (st, []) end in
     match o with
@@ -136,7 +136,7 @@ Section Fluent.
     match ops with
     | [] => (st, [])
     | o :: ops' =>
-        let '(st', ev) := step st o in
+        let '(st', ev) := fstep st o in
         let '(st'', ev') := run ops' st' in
         (st'', ev ++ ev')
     end.
